@@ -475,6 +475,12 @@ class ColorValue(Value):
                         '%s (N=Number, P=Percentage)' % (functiontype, check)
                     )
 
+            if len(rgba) != 4:
+                # e.g. a colour function cut off by the end of the sheet
+                self.wellformed = False
+                self._log.error('ColorValue: Incomplete color: %s' % self._valuestr(cssText))
+                return
+
             self._colorType = t
             self._red, self._green, self._blue, self._alpha = tuple(rgba)
             self._setSeq(seq)
